@@ -19,6 +19,17 @@ def norm(e, clone_transparent=False):
         if len(e[2]) == 1 and (is_ident_call(e[1]) and (clone_transparent or not e[1].endswith('clone'))):
             return norm(e[2][0], clone_transparent)
         return ('call', e[1], tuple(norm(a, clone_transparent) for a in e[2]))
+    if t == 'ite':
+        c, a, b = norm(e[1], clone_transparent), norm(e[2], clone_transparent), norm(e[3], clone_transparent)
+        # if x < y { x } else { y }  and friends: the minimum / maximum of the two operands
+        if c[0] == 'bin' and c[1] in ('Lt', 'Le', 'Gt', 'Ge'):
+            x, y = c[2], c[3]
+            less = c[1] in ('Lt', 'Le')
+            if (a, b) == (x, y):
+                return ('call', 'core::cmp::Ord::min' if less else 'core::cmp::Ord::max', (x, y))
+            if (a, b) == (y, x):
+                return ('call', 'core::cmp::Ord::max' if less else 'core::cmp::Ord::min', (x, y))
+        return ('ite', c, a, b)
     if t == 'k':
         return ('k', e[1])
     if t == 'kc':
